@@ -359,7 +359,7 @@ struct Operands {
 impl Operands {
     fn new(quick: bool) -> Operands {
         if quick {
-            Operands { widths: vec!["", "3"], lits: vec!["7", "1.5", "7.xxx", "(1.5).xxx"] }
+            Operands { widths: vec!["", "1", "3"], lits: vec!["7", "1.5", "7.xxx", "(1.5).xxx"] }
         } else {
             Operands { widths: WIDTHS.to_vec(), lits: vec!["7", "1.5", "7.xx", "(1.5).xx", "7.xxx", "(1.5).xxx", "7.xxxx", "(1.5).xxxx"] }
         }
@@ -1006,10 +1006,11 @@ fn ndecls(t: &NType) -> String {
         O = t.other
     );
     if scalar {
-        s.push_str(&format!("const {T}3 cv; {T}3 l3; ", T = t.name));
+        s.push_str(&format!("const {T}3 cv; {T}3 l3; const {T}2x2 cm; ", T = t.name));
     } else {
         let base = t.name.trim_end_matches(|c: char| c.is_ascii_digit());
-        s.push_str(&format!("const {B}4 cv4; {B}4 l4; ", B = base));
+        let n = &t.name[base.len()..];
+        s.push_str(&format!("const {B}4 cv4; {B}4 l4; const {B}{N}x{N} cm; ", B = base, N = n));
     }
     s
 }
@@ -1052,6 +1053,13 @@ fn nonwritable_forms(t: &NType) -> Vec<(&'static str, String)> {
         v.push(("arithmetic-result", "(l + 0)".into()));
         v.push(("unary-result", "(-l)".into()));
         v.push(("postincrement-result", "(l++)".into()));
+    }
+    // rows and elements of a const matrix (added after a seeded change that dropped `const` from a matrix row was missed)
+    if scalar {
+        v.push(("const-matrix-element", "cm[1][0]".into()));
+        v.push(("const-matrix-element", "cm._m10".into()));
+    } else {
+        v.push(("const-matrix-row", "cm[1]".into()));
     }
     if scalar {
         v.push(("const-vector-component", "cv.y".into()));
